@@ -1185,10 +1185,20 @@ public:
 
     // Update region counting
     auto old_rgn_info = m_rgn_env.at(rgn);
-    m_rgn_env.set(rgn,
-                       region_domain_impl::region_info(
-                           old_rgn_info.refcount_val().increment(ref),
-                           old_rgn_info.init_val(), old_rgn_info.type_val()));
+    small_range num_refs = old_rgn_info.refcount_val();
+    if (num_refs.is_one()) {
+      // A second object is allocated in the region. Even if ref is
+      // the only reference counted so far, the first object can still
+      // be reachable through an alias of ref (ref_gep with offset 0,
+      // or a copy stored in another region), so the region is not a
+      // singleton anymore.
+      num_refs = small_range::oneOrMore();
+    } else {
+      num_refs = num_refs.increment(ref);
+    }
+    m_rgn_env.set(rgn, region_domain_impl::region_info(
+                           num_refs, old_rgn_info.init_val(),
+                           old_rgn_info.type_val()));
 
     if (crab_domain_params_man::get().region_allocation_sites()) {
       // Associate allocation site as to ref
